@@ -230,6 +230,20 @@ PROPS["C12"] = dict(
                "keys (1 vs 1.0 as one key; sort order 9 < 10, [9] < [9,1] < [10]).  TLC judges with exact decimal arithmetic on digit sequences "
                "(Decimal.tla).",
 )
+PROPS["C14"] = dict(
+    title="stored data is isolated from caller-owned memory",
+    quick=[T("M_ALIAS", cfg="M_ALIAS_1")],
+    thorough=[T("M_ALIAS", cfg="M_ALIAS_2")],
+    own=[parts("Alias", "Outcome", "Data", "Base", "NoCrash")],
+    level="exploration",
+    design_ref="DESIGN.md 6 C14",
+    level_text="For every value shape of a universe up to depth 1 (thorough: 2) and each of 12 ways memory crosses the API boundary (request "
+               "structures of PutItem / UpdateItem / BatchWriteItem, response structures of GetItem / Scan / Query / UpdateItem / DeleteItem, the item "
+               "of a ConditionalCheckFailed error, results held across a later write, the Query input struct) the harness overwrites every mutable "
+               "location of the caller's structures after the call returned and re-reads; TLC judges the re-read against the specification, in "
+               "which caller writes are stuttering steps.  Aliasing itself is below the level of a TLA+ state machine (DESIGN.md 7): the "
+               "specification supplies the rule, the shapes and the verdict; the locations are walked by the harness.",
+)
 
 # properties deliberately not claimed, with the reason (none so far: unbuilt ones get a work-in-progress reason)
 NOT_CLAIMED = {}
